@@ -265,12 +265,16 @@ def _run_seed(args):
 def _run_refactor(args):
     """A behaviour-preserving refactoring written by an independent maintainer (refactors/<id>/patch.diff, tests and an
     equivalence sweep passed): no rule of the property may report anything on it."""
-    ref_dir, prop, repo = args
+    ref_path, prop, repo = args
     from . import props
     from .engine import Ctx
-    rid = os.path.basename(ref_dir.rstrip("/"))
+    if os.path.isdir(ref_path):
+        ref_path = os.path.join(ref_path, "patch.diff")
+    rid = os.path.basename(os.path.dirname(ref_path))
+    if os.path.basename(ref_path) != "patch.diff":
+        rid += "/" + os.path.basename(ref_path)[:-5]
     try:
-        with open(os.path.join(ref_dir, "patch.diff")) as f:
+        with open(ref_path) as f:
             patch = f.read()
         base = Program(repo)
         files = apply_unified_diff(patch, lambda rel: base.by_relpath[rel].src if rel in base.by_relpath else None)
@@ -355,8 +359,12 @@ def run_selftest(prop, repo=None, jobs=None):
     refs = []
     if os.path.isdir(ref_root):
         for d in sorted(os.listdir(ref_root)):
-            if os.path.isfile(os.path.join(ref_root, d, "patch.diff")):
-                refs.append((os.path.join(ref_root, d), prop, repo))
+            if not os.path.isdir(os.path.join(ref_root, d)):
+                continue
+            for f in sorted(os.listdir(os.path.join(ref_root, d))):
+                # patch.diff: one refactoring; pNN.diff: independent micro-edits, each applied alone
+                if f == "patch.diff" or (f.startswith("p") and f.endswith(".diff")):
+                    refs.append((os.path.join(ref_root, d, f), prop, repo))
     jobs = min(16, len(entries) + len(seeds) + len(refs), os.cpu_count() or 1)
     with ProcessPoolExecutor(max_workers=jobs) as ex:
         results = list(ex.map(_run_one, [(e, repo) for e in entries])) + list(ex.map(_run_seed, seeds)) + list(ex.map(_run_refactor, refs))
